@@ -69,15 +69,15 @@ func (c *Ctx) evRelease(q string) ev {
 
 // caseSpec is one row of the handler contract table (DESIGN.md appendix A).
 type caseSpec struct {
-	Case    string // message type of the case
-	Sub     string // sub-case label ("QoS2"), with its assumption
-	When    Assume
-	Must    []ev   // on every path, in this order
-	MustNot []ev   // on no path
-	Once    []ev   // at most once per path
-	Exempt  Assume // failures after which the contract does not apply
-	AckType string // response type whose id must be the request's
-	ArgIsRequest []ev // events whose message argument (#1) must be the request bound by the case
+	Case         string // message type of the case
+	Sub          string // sub-case label ("QoS2"), with its assumption
+	When         Assume
+	Must         []ev   // on every path, in this order
+	MustNot      []ev   // on no path
+	Once         []ev   // at most once per path
+	Exempt       Assume // failures after which the contract does not apply
+	AckType      string // response type whose id must be the request's
+	ArgIsRequest []ev   // events whose message argument (#1) must be the request bound by the case
 }
 
 // handlerGraph builds the inlined graph of the handler.
